@@ -21,10 +21,10 @@ echo "== demo with change (expect FAIL)"
 go test -count=1 -run "$tests" $pkg >/tmp/confirm_demo_with.txt 2>&1; with=$?
 tail -5 /tmp/confirm_demo_with.txt
 echo "== demo without change (expect PASS)"
-git stash push -q -- $(git diff --name-only -- . ':(exclude)*_test.go')
+git apply -R /tmp/confirm_$name.diff   # (not git stash: refs/stash is shared by all worktrees of the repository)
 go test -count=1 -run "$tests" $pkg >/tmp/confirm_demo_without.txt 2>&1; without=$?
 tail -3 /tmp/confirm_demo_without.txt
-git stash pop -q
+git apply /tmp/confirm_$name.diff
 echo "with=$with without=$without"
 if [ $suite_ok = 1 ] && [ $with != 0 ] && [ $without = 0 ]; then
   d=/verif/seeded/$name; mkdir -p $d
